@@ -170,6 +170,48 @@ func c29Joins(r *findings.Run) {
 	})
 }
 
+// ---- part (c): nested use of the global parser pool (LOOKUP JOIN re-runs a JSON source while another one is mid-flight) ----
+
+func c29Nested(r *findings.Run) {
+	if r.ShardChild() {
+		return
+	}
+	dir := tablesDir()
+	small, _ := jsonSchedFile(dir, 5, -1)
+	for _, lines := range []int{200, 1000, 2000} {
+		left, _ := jsonSchedFile(dir, lines, -1)
+		for _, procs := range []int{1, 2, 4} {
+			for _, q := range []string{
+				fmt.Sprintf("SELECT COUNT(*) AS c FROM %s a LOOKUP JOIN %s b ON a.i = b.i", left, small),
+				fmt.Sprintf("SELECT COUNT(*) AS c FROM %s a LOOKUP JOIN (SELECT * FROM %s c LIMIT 1) b ON a.i >= b.i", left, small),
+				fmt.Sprintf("SELECT COUNT(*) AS c FROM %s a WHERE a.i IN (SELECT b.i FROM %s b)", left, small),
+			} {
+				args := sqlArgs(q, "json", true)
+				res := runner.RunBinary(args, nil, fmt.Sprintf("GOMAXPROCS=%d", procs))
+				r.Eval(1)
+				r.AddCounts(1, 1, 1)
+				if res.Hang {
+					// a deadlock is permanent: it must reproduce
+					res = runner.RunBinary(args, nil, fmt.Sprintf("GOMAXPROCS=%d", procs))
+				}
+				cs := map[string]interface{}{"sql": q, "gomaxprocs": procs, "left_lines": lines}
+				r.Outcome(fmt.Sprintf("nested-pool-use procs=%d %s", procs, res.Class()))
+				switch {
+				case res.Hang:
+					r.Violation("C29/nested-json-sources/no-termination", fmt.Sprintf("GOMAXPROCS=%d: %s did not finish within 90 s (twice)", procs, q), cs)
+					return // every further scenario would cost another 3 minutes
+				case res.Crash != "":
+					r.Violation("C29/nested-json-sources/crash", fmt.Sprintf("GOMAXPROCS=%d: %s crashed: %s", procs, q, oneLineC04(res.Crash)), cs)
+				case res.Exit != 0:
+					r.Violation("C29/nested-json-sources/error", fmt.Sprintf("GOMAXPROCS=%d: %s failed: %s", procs, q, oneLineC04(res.Err)), cs)
+				default:
+					r.Nontrivial(fmt.Sprint(cs))
+				}
+			}
+		}
+	}
+}
+
 // ---- race pass: the same kinds of executions, free running, under the race detector ----
 
 var raceHead = regexp.MustCompile(`(?m)^(Read|Write|Previous read|Previous write) at .*\n((?:  .*\n)+)`)
@@ -225,8 +267,8 @@ func c29Races(r *findings.Run) {
 		q(fmt.Sprintf("SELECT a.i, b.i FROM %s a LOOKUP JOIN (SELECT * FROM %s c LIMIT 1) b ON a.i >= b.i", small, mid), "json"),
 		q(fmt.Sprintf("SELECT DISTINCT a.s FROM %s a JOIN %s b ON a.i = b.i WHERE b.s ~ '^r[0-9]$'", small, small), "json"),
 		q(fmt.Sprintf("SELECT a.i FROM %s a WHERE a.i IN (SELECT b.i FROM %s b WHERE b.s LIKE 'r1%%') ORDER BY a.i LIMIT 5", small, mid), "stream_native"),
-		{Args: sqlArgs("SELECT COUNT(*) AS c FROM stdin.json t", "json", true), Stdin: big},
-		{Args: sqlArgs("SELECT * FROM stdin.json t LIMIT 2", "json", true), Stdin: big},
+		// stdin can be read once per process (the real binary runs one query per process), so one stdin scenario only
+		{Args: sqlArgs("SELECT * FROM stdin.json t LIMIT 70", "json", true), Stdin: big},
 		q(fmt.Sprintf("SELECT COUNT(*) AS c FROM %s t", small), "json"),
 	}
 	for _, procs := range []int{1, 2, 4, 16} {
@@ -238,6 +280,12 @@ func c29Races(r *findings.Run) {
 			continue
 		}
 		for i, x := range res {
+			// vacuity guard: every scenario must really execute (only the file with the malformed line may fail)
+			wantErr := strings.Contains(reqs[i].Args[0], bad)
+			if x.Crash == "" && (x.Err != "") != wantErr {
+				fmt.Printf("HARNESS ERROR: race-pass scenario %d (%s) ended unexpectedly: err=%q\n", i, reqs[i].Args[0], x.Err)
+				panic("race pass scenario did not run as intended")
+			}
 			if x.Crash != "" {
 				r.Violation("C29/race-pass/crash", fmt.Sprintf("GOMAXPROCS=%d: worker died during query %d (%v): %s", procs, i, reqs[i].Args[0], oneLineC04(stderr)), map[string]interface{}{"gomaxprocs": procs, "query": reqs[i].Args[0]})
 			}
@@ -263,12 +311,13 @@ func c29Races(r *findings.Run) {
 func init() {
 	register("C29", "model_checking", func(r *findings.Run) {
 		defer cleanupTables()
-		r.Rule = "termination, exhaustively over schedules: (a) the real JSON reader/worker-pool/reorder pipeline under the H2 controller: every delivery order of the parsed batches (pools of 1, 2, 4 workers) x consumer stopping after record j in {1,64,65,last} x a malformed line in a later batch, plus 8400-line files (more batches than the 128-slot output channel) within a deviation bound, each followed by a plain JSON query in the same process (the pool is global); (b) the four join kinds under the H1 controller: every interleaving x consumer stopping after 1 or 2 outputs x a source failing at every position; Run must return. (c) data races: a separate free-running pass of 16 query scenarios (JSON scans with LIMIT/errors, joins with LIKE/~/~* in both branches, outer joins, lookup join over a LIMITed JSON source, IN-subquery, stdin) in a -race build with GOMAXPROCS 1,2,4,16; state = (scenario, schedule prefix)"
+		r.Rule = "termination, exhaustively over schedules: (a) the real JSON reader/worker-pool/reorder pipeline under the H2 controller: every delivery order of the parsed batches (pools of 1, 2, 4 workers) x consumer stopping after record j in {1,64,65,last} x a malformed line in a later batch, plus 8400-line files (more batches than the 128-slot output channel) within a deviation bound, each followed by a plain JSON query in the same process (the pool is global); (b) the four join kinds under the H1 controller: every interleaving x consumer stopping after 1 or 2 outputs x a source failing at every position; Run must return. (c) nested use of the global parser pool: a JSON source re-run for every record of a 200/1000/2000-line JSON source (LOOKUP JOIN, IN-subquery) on the real binary with GOMAXPROCS 1, 2, 4 must finish. (d) data races: a separate free-running pass of 15 query scenarios (JSON scans with LIMIT/errors, joins with LIKE/~/~* in both branches, outer joins, lookup join over a LIMITed JSON source, IN-subquery, stdin) in a -race build with GOMAXPROCS 1,2,4,16; state = (scenario, schedule prefix)"
 		r.Assume("a controlled execution that has not returned after 120 s is reported as stuck", "the race pass is NOT schedule-exhaustive: a cooperative controller's hand-offs hide races from the detector, so races are looked for in free-running executions only",
 			"hooks H1 and H2 report every step; one message/batch decision at a time")
 		r.Bound = map[string]interface{}{"json_sizes": []int{65, 129, 200, 321, 8400}, "json_worker_pools": []int{1, 2, 4}, "big_file_deviation_bound": r.Pick(0, 1), "join_events_per_side": 2, "race_pass_gomaxprocs": []int{1, 2, 4, 16}}
 		c29JSON(r)
 		c29Joins(r)
+		c29Nested(r)
 		c29Races(r)
 	})
 }
